@@ -37,24 +37,25 @@ type modNet struct {
 
 // netMeta are the static facts ModularAct.tla derives for a network (MC_ModularAct!MetaOf).
 type netMeta struct {
-	Std         bool `json:"std"`  // in StdClass: the settle law speaks about the standard solver
-	Fast        bool `json:"fast"` // in FastClass
-	Defined     bool `json:"defined"`
-	WellOrdered bool `json:"wellordered"`
-	SensorFed   bool `json:"sensorfed"`
-	NoTd        bool `json:"notd"`
-	Arity1      bool `json:"arity1"`
-	AllReach    bool `json:"allreach"`
-	Need        int  `json:"need"`
-	Acyclic     bool `json:"acyclic"`
-	Depth       int  `json:"depth"` // Network.MaxActivationDepth() as transcribed (-1: cyclic graph, not specified)
-	DepthDef    int  `json:"depthdef"`
-	Longest     int  `json:"longest"`
-	Ncs         int  `json:"ncs"`
-	Ncf         int  `json:"ncf"`
-	Lcs         int  `json:"lcs"`
-	Lcf         int  `json:"lcf"`
-	PlainBias   bool `json:"plainbias"`
+	Std         bool   `json:"std"`  // in StdClass: the settle law speaks about the standard solver
+	Fast        bool   `json:"fast"` // in FastClass
+	Defined     bool   `json:"defined"`
+	WellOrdered bool   `json:"wellordered"`
+	SensorFed   bool   `json:"sensorfed"`
+	NoTd        bool   `json:"notd"`
+	Arity1      bool   `json:"arity1"`
+	AllReach    bool   `json:"allreach"`
+	Need        int    `json:"need"`
+	Acyclic     bool   `json:"acyclic"`
+	Depth       int    `json:"depth"` // Network.MaxActivationDepth() as transcribed (-1: cyclic graph, not specified)
+	DepthDef    int    `json:"depthdef"`
+	Longest     int    `json:"longest"`
+	Ncs         int    `json:"ncs"`
+	Ncf         int    `json:"ncf"`
+	Lcs         int    `json:"lcs"`
+	Lcf         int    `json:"lcf"`
+	PlainBias   bool   `json:"plainbias"`
+	RelaxErr    string `json:"relaxerr"`
 }
 
 var intActs = map[string]neatmath.NodeActivationType{
